@@ -14,8 +14,9 @@ def lemmas(tier):
     if tier == "quick":
         plan = [(0, 0, True), (1, 0, True), (1, 1, True), (0, 1, True), (1, 2, False), (2, 1, False), (2, 2, None), (3, 1, None)]
     else:
-        # (the first thorough plan — all deviations up to 2 tags x 2 values, fresh payloads up to 4 tags / 3 values — did not finish in 75 min)
-        plan = [(t, v, True) for t in range(0, 3) for v in range(0, 2)] + [(1, 2, True), (2, 2, False), (3, 0, False), (3, 1, False), (3, 2, None), (4, 1, None), (2, 3, None)]
+        # (plans with framing deviations on 2 tags did not finish: the deviations multiply the ~30 k paths of a 2-tag payload by ~50)
+        plan = [(0, 0, True), (1, 0, True), (1, 1, True), (0, 1, True), (0, 2, True), (1, 2, False), (2, 1, False), (2, 2, False), (3, 1, False),
+                (2, 2, None), (3, 1, None), (3, 2, None), (4, 1, None), (2, 3, None)]
     for nt, nv, dev in plan:
         ch = {"ntags": nt, "nvals": nv}
         if not dev:
